@@ -716,6 +716,23 @@ def _same_target_twice_failures():
     return fails, n
 
 
+def _run_group(cmd, timeout, **kw):
+    """subprocess.run(capture_output, text) in a process group of its own; on timeout the WHOLE group is killed (a hung redo leaves
+    scripts and nested redos behind otherwise) and subprocess.TimeoutExpired is raised"""
+    import signal
+    pr = subprocess.Popen(cmd, stdout=subprocess.PIPE, stderr=subprocess.PIPE, text=True, start_new_session=True, **kw)
+    try:
+        out, err = pr.communicate(timeout=timeout)
+        return subprocess.CompletedProcess(cmd, pr.returncode, out, err)
+    except subprocess.TimeoutExpired:
+        try:
+            os.killpg(pr.pid, signal.SIGKILL)
+        except OSError:
+            pass
+        pr.communicate()
+        raise
+
+
 def _cycle_shapes_failures():
     """Bounded: dependency cycles on the real binaries.  Chains t0 -> t1 -> .. -> t(k-1) (k = 2, 3) below a top target, built
     once without a cycle; then the last script is edited to ask for t0 (the cycle is closed) and a source is edited.  Every
@@ -766,11 +783,10 @@ def _cycle_shapes_failures():
                         open(os.path.join(proj, 'src'), 'w').write('two, longer\n')
                         hist = 'chain of %d, redo-stamp before the dependency in: %s; built once; %s.do now asks for t0; src edited; %sredo -j%d %s' % (k, stamped, names[k - 1], '' if cyc is None else 'REDO_CYCLES=%r ' % cyc, j, entry)
                         try:
-                            r = subprocess.run(['redo', '--no-log', '-j%d' % j, entry], cwd=proj, env=env_, capture_output=True, text=True, timeout=20)
+                            r = _run_group(['redo', '--no-log', '-j%d' % j, entry], 20, cwd=proj, env=env_)
                             if r.returncode == 0:
                                 fails.append(dict(input=hist, observed='exit 0', clause='a build that runs into a dependency cycle ends with a non-zero status'))
                         except subprocess.TimeoutExpired:
-                            subprocess.run(['pkill', '-f', proj], capture_output=True)
                             fails.append(dict(input=hist, observed='still running after 20 s', clause='a build that runs into a dependency cycle ends'))
                         shutil.rmtree(proj, ignore_errors=True)
     finally:
